@@ -426,7 +426,9 @@ def handle(line):
         return "%s bad-request" % toks[1]
     try:
         return "%s %s" % (toks[1], f(toks[2:]))
-    except Exception as e:  # an exception the glue does not document: reported, never hidden
+    except (KeyboardInterrupt, SystemExit):
+        raise
+    except BaseException as e:  # an exception the glue does not document (incl. pyo3 PanicException): reported, never hidden
         return "%s exc %s %s" % (toks[1], type(e).__name__, msg_(e)[:200])
 
 
@@ -582,8 +584,10 @@ def oracle_c27(seed, n, tier):
                 back = ext.deser_2026(enc)
                 got = view(back)
                 direct = view(lazy)
-            except Exception as e:
-                rep.fail("c27_roundtrip", "%s class=%s tree=%s raised %s: %s" % (tid, name, hx, type(e).__name__, e))
+            except (KeyboardInterrupt, SystemExit):
+                raise
+            except BaseException as e:  # pyo3's PanicException derives from BaseException
+                rep.fail("c27_roundtrip", "%s class=%s tree=%s raised %s: %s" % (tid, name, hx[:400], type(e).__name__, str(e)[:200]))
                 continue
             rep.hit("class:" + name)
             rep.hit("pairs<=%d" % (1 if npairs <= 1 else 8 if npairs <= 8 else 64 if npairs <= 64 else 100000))
